@@ -114,4 +114,23 @@ TEXT = {
  'note': "Trusted base: refwire (~1 kLoC), Go's encoding/json, compress/*, base64, google.golang.org/protobuf (protowire, protojson for Any).",
  'technique': 'property-based testing (rapid): differential testing against an independent strict reference implementation of the three protocols, in both '
               'directions'},
+    'C14': {'text': 'Fault enumeration over schedules: for fixed representative programs every single yield point (and, thorough, every pair) of the duplex call receives '
+         'a virtual delay; rapid adds program pairs from five families (closing, ping-pong, handler exits early while the client keeps sending, cancel '
+         'followed by arbitrary operations, typed calls) × 3 protocols × {in-memory transport, real net/http h2c / HTTP/1.1} with 0..2 random delays. '
+         "Everything runs in a synctest bubble, so 'every call returns' (deadlock detection) and 'no library goroutine remains' (stack inspection after a 30 s "
+         'virtual settle period) are decided, not guessed from wall-clock timeouts.',
+ 'design_ref': 'DESIGN.md §5 C14',
+ 'note': "Trusted: testing/synctest (virtual time, deadlock detection), memnet.Mem / net/http as carriers, the verif yield hooks. Liveness is checked as 'no "
+         "deadlock within the bubble', i.e. relative to virtual time.",
+ 'technique': 'property-based testing (rapid) of operation histories inside synctest bubbles with enumerated delay injection at named yield points: deadlock '
+              'detection, goroutine-leak inspection, outcome model'},
+    'C15': {'text': 'Exploration over instants in virtual time: cancellation or deadline expiry before any operation, between any two operations, while a Send is blocked '
+         '(payload larger than every buffer), while a Receive or a typed call is blocked, and within ±1 ns of a handler reply, × 3 protocols × {in-memory, '
+         "real h2c/HTTP/1.1} with optional delays at yield points; plus handlers returning the context package's sentinels. Oracle: operations started after "
+         'the instant fail; every failure at or after it carries canceled / deadline_exceeded (Send may return the io.EOF-wrapping error); nothing hangs; the '
+         'handler does not keep running; no library goroutine remains.',
+ 'design_ref': 'DESIGN.md §5 C15',
+ 'note': 'Trusted: testing/synctest; the per-operation virtual timestamps recorded by the universal client.',
+ 'technique': 'property-based testing (rapid) in synctest bubbles: generated cancellation/expiry instants relative to operation progress; code-rule oracle per '
+              'operation, deadlock and leak detection'},
 }
